@@ -12,7 +12,7 @@ META = {
     "category": "proof",
     "design_ref": "DESIGN.md section 5, C18",
     "level_text": "Theorems (coq/Props/C18.v, 31, all closed under the global context). Circuit::simplify (15): the run-time audits decide the property's predicates (C18_nf_b_spec, C18_equiv_b_spec for EVERY assignment, C18_defined_b_spec, C18_map_consistent_b_spec, C18_closed_b_spec, C18_should_err_b_spec); the model simplifier returns a circuit in normal form (C18_simp_nf) in which every literal over reachable gates denotes the same function through the gate map (C18_simp_equiv, C18_simp_map_consistent), Ok only without reachable cycle / unknown input (C18_simp_ok_no_err_condition), Err exactly in that case and justified (C18_simp_err_iff, C18_simp_err_justified), never Crash/Fuel on closed circuits (C18_simp_total); C18_dedup_sem. AIGER (14): C18_aiger_parse_total -- for ALL byte strings and both values of check_acyclic the model reader returns a problem or a diagnostic, the fuel of its loops (input length + 1) is never exhausted (C18_aiger_loop_fuel_irrelevant: more fuel never changes a loop's result); C18_aiger_varint_roundtrip / C18_aiger_bin_and_roundtrip -- the 7-bit delta codec for every size below 2^64 including the 64-bit wrapping shift of usize_7bit; C18_aiger_symbol_table_roundtrip; C18_aiger_aag_roundtrip / C18_aiger_aig_roundtrip -- for every well-formed problem p (decidable wf_b: variables numbered inputs, latches, AND gates in order with rhs1 <= rhs0 < lhs, literals in range, counts <= MAX_CAPACITY, default variable map, names without line breaks / leading / trailing blanks; any numbers of inputs, latches with reset 0/1/own literal, outputs, bad, constraints, justice lists, fairness, gates, names) parse(print_aag p) = Ok p and parse(print_aig p) = Ok p; C18_aiger_aag_aig_equiv -- the two files parse to the same problem; C18_aiger_aig_then_aag -- EVERY accepted binary file yields a problem whose ASCII print parses to the same problem again (hypothesis syms_ok on the shape of the symbol names, shown necessary by C18_aiger_syms_ok_needed); C18_aiger_bin_topo -- the gates of every accepted binary file are topologically ordered, pass the acyclicity test and have no cyclic dependency (transitive closure); C18_aiger_acyclic_b_sound -- the acyclicity test (the model's counterpart of Circuit::find_cycle) is sound for arbitrary gate lists; C18_aiger_accepted_acyclic -- every problem accepted with check_acyclic = true, ASCII or binary, has no gate depending on itself; C18_aiger_wf_example -- the hypotheses hold for a concrete non-trivial problem. DIMACS CNF (2): C18_dimacs_cnf_total (all byte strings), C18_dimacs_cnf_roundtrip (a printed CNF with empty / unit / XOR clauses is read back as exactly the circuit cnf::parse builds). Correspondence (quick tier): ~215 000 AIGER inputs (8 000 generated aag/aig files of 4 000 well-formed problems incl. two-/three-byte deltas and names, all accepted and pairwise equal; ~199 000 mutated inputs: accept/reject decision and every field of the accepted problem equal to the model's, in release and debug profile) and ~169 000 DIMACS inputs; circuits as before.",
-    "level_note": "Trusted: Coq kernel, extraction, OCaml drivers (hex conversion, the textual dump format, UTF-8 validity test, generators), Rust harness (dump_aiger reads the fields without public accessor -- bad, invariants, justice, fairness, name vectors -- from the Debug text of AIGERDetails). The models are hand-written; what ties them to the code is the differential run, not a proof about nom. Model vs. code: the ASCII branch reads a section before it runs the 'second definition' checks (the code interleaves them; only accept/reject is observable); Circuit::find_cycle is modelled by iterated marking (acyclic_b, same predicate); names are byte strings in the model, the code converts them with String::from_utf8_lossy -- names that are not valid UTF-8 are not compared (counted: aig_names_not_utf8); header counts size allocations in the code and list lengths in the model, inputs with numbers of 6+ digits are skipped in the differential streams (allocation failure for absurd counts is the recorded known finding); the u32 shift counter of usize_7bit and the recursion depth of find_cycle / simplify are not modelled. PARTIAL: the DIMACS SAT formats (sat/satx/sate/satex), variable-order / clause-tree preambles and the NNF reader have no model -- their totality is a mutation SEARCH under catch_unwind (release + debug profile), not a theorem; the 'no panic' half of the property for the modelled readers rests on the differential run too (the theorems are about the model). Defect found and fixed through the tie: TVBitVec (latch reset values) -- /repo commit cc9131a, corpus/C18/f19-aiger-latch-reset-values.case.",
+    "level_note": "Trusted: Coq kernel, extraction, OCaml drivers (hex conversion, the textual dump format, UTF-8 validity test, generators), Rust harness (dump_aiger reads the fields without public accessor -- bad, invariants, justice, fairness, name vectors -- from the Debug text of AIGERDetails). The models are hand-written; what ties them to the code is the differential run, not a proof about nom. Model vs. code: the ASCII branch reads a section before it runs the 'second definition' checks (the code interleaves them; only accept/reject is observable); Circuit::find_cycle is modelled by iterated marking (acyclic_b, same predicate); names are byte strings in the model, the code converts them with String::from_utf8_lossy -- names that are not valid UTF-8 are not compared (counted: aig_names_not_utf8); header counts size allocations in the code and list lengths in the model, inputs with numbers of 6+ digits are skipped in the differential streams (allocation failure for absurd counts is the recorded known finding); the u32 shift counter of usize_7bit and stack depth are not modelled (three probes S run the real parsers on inputs of depth 100000 in a thread with the default stack size). PARTIAL: the DIMACS SAT formats (sat/satx/sate/satex), variable-order / clause-tree preambles and the NNF reader have no model -- their totality is a mutation SEARCH under catch_unwind (release + debug profile), not a theorem; the 'no panic' half of the property for the modelled readers rests on the differential run too (the theorems are about the model). Defects found and fixed: TVBitVec (latch reset values; found by the field-by-field comparison with the model) -- /repo commit cc9131a, corpus/C18/f19-aiger-latch-reset-values.case; Circuit::find_cycle recursing once per gate of a chain (stack overflow on a valid 1.4 MB aag file; found while modelling it) -- /repo commit f0a4345, corpus/C18/f20-find-cycle-stack-depth.case. Recorded known finding: stack overflow for deeply nested order / clause trees and SAT formulas (probe op S, corpus/C18/stack-nesting-depth.case).",
 }
 ALLOWED_AXIOMS = ()
 MODEL_VOS = ["Base/Conv.vo", "IO/Circuit.vo", "IO/Aiger.vo", "IO/AigerParse.vo", "IO/DimacsParse.vo"]
